@@ -176,3 +176,22 @@ theorem take3_unique (pfx x y rem : Bytes) (v : Nat × Nat × Nat) (a b c : Nat)
   simp only [Option.some.injEq, Prod.mk.injEq] at h1
   exact ⟨h1.1.symm, h1.2.symm⟩
 end Iavl
+
+namespace Iavl
+/-- parsing consumes at least one byte and never invents bytes -/
+theorem takeUvarintGo_length (bz : Bytes) (i x s n : Nat) (r : Bytes)
+    (h : takeUvarintGo bz i x s = some (n, r)) : r.length < bz.length := by
+  induction bz generalizing i x s with
+  | nil => simp [takeUvarintGo] at h
+  | cons b rest ih =>
+    simp only [takeUvarintGo] at h
+    split at h
+    · cases h
+    · split at h
+      · split at h
+        · cases h
+        · simp only [Option.some.injEq, Prod.mk.injEq] at h
+          rw [← h.2]; simp
+      · have := ih _ _ _ h
+        simp only [List.length_cons]; omega
+end Iavl
